@@ -361,7 +361,7 @@ class Prop:
                    "by rounding (norm ~1e-8 against a 1e-10 threshold) - a logic.py robustness defect outside this property",
                    "sizes >= 3 along differentiated modes, and > max order for partialset (as quantified)"]
     THEOREMS = ["C20_partial", "C20_stencil", "C20_constants_annihilated", "C20_affine_to_constant", "C20_sum_of_partials", "C20_partial_shape",
-                "C20_curl", "C20_laplacian", "C20_divergence"]
+                "C20_curl", "C20_laplacian", "C20_divergence", "C20_gradient_default", "C20_gradient_bounds"]
 
     # ------------------------------------------------------------------ generation
     def generate(self, rng, tier):
